@@ -433,6 +433,141 @@ func bodies() []body {
 			return append(params(est.GetParameters()), liks...), nil
 		}})
 
+	// HMM whose emissions are themselves mixtures: a Baum-Welch emission job calls the
+	// mixture estimator, which runs an EM step with nested pool use (depth 3)
+	bs = append(bs, body{name: "vector.Hmm[Mixture(Categorical x2) emissions;seqs=2;steps=2]", nested: true,
+		sizes: func(T int) []int { return []int{2} },
+		run: func(n int, p tp.ThreadPool) ([]float64, error) {
+			mkmix := func(a, b []float64) (ScalarEstimator, error) {
+				e1, err := scalarEstimator.NewCategoricalEstimator(a)
+				if err != nil {
+					return nil, err
+				}
+				e2, err := scalarEstimator.NewCategoricalEstimator(b)
+				if err != nil {
+					return nil, err
+				}
+				return scalarEstimator.NewMixtureEstimator([]float64{0.5, 0.5}, []ScalarEstimator{e1, e2}, 1e-8, 1)
+			}
+			m1, err := mkmix([]float64{0.25, 0.75}, []float64{0.5, 0.5})
+			if err != nil {
+				return nil, err
+			}
+			m2, err := mkmix([]float64{0.75, 0.25}, []float64{0.5, 0.5})
+			if err != nil {
+				return nil, err
+			}
+			pi := NewDenseFloat64Vector([]float64{0.5, 0.5})
+			tr := NewDenseFloat64Matrix([]float64{0.75, 0.25, 0.5, 0.5}, 2, 2)
+			var liks []float64
+			hook := generic.BaumWelchHook{Value: func(h generic.BasicHmm, i int, l, eps float64) {
+				if !math.IsNaN(l) {
+					liks = append(liks, l)
+				}
+			}}
+			e, err := vectorEstimator.NewHmmEstimator(pi, tr, nil, nil, nil, []ScalarEstimator{m1, m2}, 1e-8, 2, hook)
+			if err != nil {
+				return nil, err
+			}
+			xs := []ConstVector{NewDenseFloat64Vector([]float64{1, 1, 0, 1}), NewDenseFloat64Vector([]float64{0, 0, 1})}
+			if err := e.EstimateOnData(xs, nil, p); err != nil {
+				return nil, err
+			}
+			est, err := e.GetEstimate()
+			if err != nil {
+				return nil, err
+			}
+			return append(params(est.GetParameters()), liks...), nil
+		}})
+
+	// discrete mixture over summarised data (counts), driven through SetData + Estimate
+	bs = append(bs, body{name: "scalar.DiscreteMixture[Poisson,Poisson;summarised;steps=2]", nested: true,
+		sizes: func(T int) []int { return []int{T + 1, 2*T + 1} },
+		run: func(n int, p tp.ThreadPool) ([]float64, error) {
+			a, err := scalarEstimator.NewPoissonEstimator(0.5)
+			if err != nil {
+				return nil, err
+			}
+			b, err := scalarEstimator.NewPoissonEstimator(3)
+			if err != nil {
+				return nil, err
+			}
+			var liks []float64
+			hook := generic.EmHook{Value: func(m generic.BasicMixture, i int, l, eps float64) {
+				if !math.IsNaN(l) {
+					liks = append(liks, l)
+				}
+			}}
+			e, err := scalarEstimator.NewDiscreteMixtureEstimator([]float64{0.5, 0.5}, []ScalarEstimator{a, b}, 1e-8, 2, hook)
+			if err != nil {
+				return nil, err
+			}
+			x := NewDenseFloat64Vector(dataCount(n))
+			if err := e.SetData(x, x.Dim()); err != nil {
+				return nil, err
+			}
+			if err := e.Estimate(nil, p); err != nil {
+				return nil, err
+			}
+			est, err := e.GetEstimate()
+			if err != nil {
+				return nil, err
+			}
+			return append(params(est.GetParameters()), liks...), nil
+		}})
+
+	// matrix mixture over VectorId(ScalarId(Normal)) components
+	bs = append(bs, body{name: "matrix.Mixture[VectorId(ScalarId(Normal))x2;steps=2]", nested: true,
+		sizes: func(T int) []int { return []int{T + 1} },
+		run: func(n int, p tp.ThreadPool) ([]float64, error) {
+			mk := func(mu float64) (MatrixEstimator, error) {
+				e0, err := scalarEstimator.NewNormalEstimator(mu, 1, 0.125)
+				if err != nil {
+					return nil, err
+				}
+				v0, err := vectorEstimator.NewScalarId(e0)
+				if err != nil {
+					return nil, err
+				}
+				v1, err := vectorEstimator.NewScalarId(e0)
+				if err != nil {
+					return nil, err
+				}
+				return matrixEstimator.NewVectorId(v0, v1)
+			}
+			a, err := mk(-1)
+			if err != nil {
+				return nil, err
+			}
+			b, err := mk(2)
+			if err != nil {
+				return nil, err
+			}
+			var liks []float64
+			hook := generic.EmHook{Value: func(m generic.BasicMixture, i int, l, eps float64) {
+				if !math.IsNaN(l) {
+					liks = append(liks, l)
+				}
+			}}
+			e, err := matrixEstimator.NewMixtureEstimator([]float64{0.5, 0.5}, []MatrixEstimator{a, b}, 1e-8, 2, hook)
+			if err != nil {
+				return nil, err
+			}
+			xs := []ConstMatrix{}
+			d := dataReal(11)
+			for i := 0; i < n; i++ {
+				xs = append(xs, NewDenseFloat64Matrix([]float64{d[i], d[(i+3)%11]}, 2, 1))
+			}
+			if err := e.EstimateOnData(xs, nil, p); err != nil {
+				return nil, err
+			}
+			est, err := e.GetEstimate()
+			if err != nil {
+				return nil, err
+			}
+			return append(params(est.GetParameters()), liks...), nil
+		}})
+
 	// logistic regression (SAGA workers through the pool)
 	bs = append(bs, body{name: "vector.LogisticRegression", nested: false,
 		sizes: func(T int) []int { return []int{4} },
